@@ -5,6 +5,27 @@
 use crate::common::*;
 use fidget_core::context::{BinaryOpcode, Context, Node, UnaryOpcode};
 use serde_json::json;
+use fidget_core::types::FloatExt;
+
+/// the meaning of an opcode, written here (not taken from context/op.rs, which is code under test)
+fn bin_ref(op: BinaryOpcode, a: f32, b: f32) -> f32 {
+    match op {
+        BinaryOpcode::Add => a + b, BinaryOpcode::Sub => a - b, BinaryOpcode::Mul => a * b, BinaryOpcode::Div => a / b,
+        BinaryOpcode::Atan => a.atan2(b), BinaryOpcode::Min => if a.is_nan() || b.is_nan() { f32::NAN } else if a < b { a } else { b },
+        BinaryOpcode::Max => if a.is_nan() || b.is_nan() { f32::NAN } else if a > b { a } else { b },
+        BinaryOpcode::Compare => match a.partial_cmp(&b) { Some(std::cmp::Ordering::Less) => -1.0, Some(std::cmp::Ordering::Equal) => 0.0, Some(std::cmp::Ordering::Greater) => 1.0, None => f32::NAN },
+        BinaryOpcode::Mod => a.rem_euclid(b), BinaryOpcode::And => if a == 0.0 { a } else { b }, BinaryOpcode::Or => if a != 0.0 { a } else { b },
+        BinaryOpcode::Mix => a.mix(b),
+    }
+}
+fn un_ref(op: UnaryOpcode, a: f32) -> f32 {
+    match op {
+        UnaryOpcode::Neg => -a, UnaryOpcode::Abs => a.abs(), UnaryOpcode::Recip => 1.0 / a, UnaryOpcode::Sqrt => a.sqrt(), UnaryOpcode::Square => a * a,
+        UnaryOpcode::Floor => a.floor(), UnaryOpcode::Ceil => a.ceil(), UnaryOpcode::Round => a.round(), UnaryOpcode::Sin => a.sin(), UnaryOpcode::Cos => a.cos(),
+        UnaryOpcode::Tan => a.tan(), UnaryOpcode::Asin => a.asin(), UnaryOpcode::Acos => a.acos(), UnaryOpcode::Atan => a.atan(), UnaryOpcode::Exp => a.exp(),
+        UnaryOpcode::Ln => a.ln(), UnaryOpcode::Not => if a == 0.0 { 1.0 } else { 0.0 }, UnaryOpcode::Rand => a.rand(),
+    }
+}
 
 #[derive(Copy, Clone, Debug)]
 enum Operand { X, Y, Const(f32), SameAsLhs, Compound }
@@ -69,7 +90,7 @@ pub fn context_rewrites(thorough: bool) -> Report {
                         r.cases += 1;
                         let va = val(lo, x, y, 0.0);
                         let vb = val(ro, x, y, va);
-                        let want = op.eval(va, vb);
+                        let want = bin_ref(*op, va, vb);
                         if !(va.is_finite() && vb.is_finite() && want.is_finite()) {
                             continue;
                         }
@@ -79,7 +100,7 @@ pub fn context_rewrites(thorough: bool) -> Report {
                             // compare constants as OrderedFloat), and the operation is sensitive to the sign of a zero operand
                             let stored = |o: Operand, node: Node, v: f32| if matches!(o, Operand::Const(_)) { ctx.get_const(node).unwrap_or(v) } else { v };
                             let (sa, sb) = (stored(lo, a, va), stored(ro, b, vb));
-                            let dedup = (sa.to_bits() != va.to_bits() || sb.to_bits() != vb.to_bits()) && sa == va && sb == vb && approx(got, op.eval(sa, sb));
+                            let dedup = (sa.to_bits() != va.to_bits() || sb.to_bits() != vb.to_bits()) && sa == va && sb == vb && approx(got, bin_ref(*op, sa, sb));
                             let class = if dedup { format!("signed-zero-constant-dedup:{name}") } else { format!("meaning:{name}") };
                             r.fail(format!("[{class}] {name}:{lo:?}:{ro:?}:x={},y={}", fmt_f(x), fmt_f(y)),
                                    format!("[{class}] Context::{name}({lo:?}, {ro:?}) evaluates to {} but {name}({}, {}) = {}", fmt_f(got), fmt_f(va), fmt_f(vb), fmt_f(want)),
@@ -89,6 +110,80 @@ pub fn context_rewrites(thorough: bool) -> Report {
                 }
             }
         }
+    }
+    // chains: op2(op1(x, c1), c2) and op2(c2, op1(c1, x)) must equal the step-by-step f32 evaluation (no re-association of constants)
+    {
+        let cs: Vec<f32> = vec![1.0e8, -1.0e8, 0.1, 0.2, 3.0, -0.5, 1.0, 0.0, 1.0e-3, 7.0];
+        let chain_ops: Vec<(&str, BinaryOpcode, BinCtor)> = bins.iter().filter(|b| matches!(b.0, "add" | "sub" | "mul" | "div" | "min" | "max")).map(|b| (b.0, b.1, b.2)).collect();
+        for (n1, o1, c1f) in &chain_ops { for (n2, o2, c2f) in &chain_ops {
+            for &c1 in &cs { for &c2 in &cs {
+                for side in 0..2 {
+                    let mut ctx = Context::new();
+                    let x = ctx.x();
+                    let k1 = ctx.constant(c1);
+                    let inner = if side == 0 { c1f(&mut ctx, x, k1) } else { c1f(&mut ctx, k1, x) };
+                    let k2 = ctx.constant(c2);
+                    let outer = if side == 0 { c2f(&mut ctx, inner, k2) } else { c2f(&mut ctx, k2, inner) };
+                    for &xv in &pts {
+                        r.cases += 1;
+                        let i = if side == 0 { bin_ref(*o1, xv, c1) } else { bin_ref(*o1, c1, xv) };
+                        let want = if side == 0 { bin_ref(*o2, i, c2) } else { bin_ref(*o2, c2, i) };
+                        if !(xv.is_finite() && i.is_finite() && want.is_finite()) { continue; }
+                        let got = ctx.eval_xyz(outer, xv, 0.0, 0.0).unwrap();
+                        if !approx(got, want) {
+                            r.fail(format!("[meaning:chain:{n2}({n1})] side{side}:c1={},c2={},x={}", fmt_f(c1), fmt_f(c2), fmt_f(xv)),
+                                   format!("[meaning:chain:{n2}({n1})] {n2}({n1}(x, {}), {}) (side {side}) at x={} evaluates to {} but step by step it is {}", fmt_f(c1), fmt_f(c2), fmt_f(xv), fmt_f(got), fmt_f(want)),
+                                   json!({"contract":"context_rewrites","ctor":"chain","x":xv.to_bits()}));
+                        }
+                    }
+                }
+            } }
+        } }
+    }
+    // derived constructors: less_than, less_than_or_equal (as 0/1 values), if_nonzero_else (selection)
+    {
+        let mut three: Vec<Operand> = vec![Operand::X, Operand::Y, Operand::Compound];
+        for &c in &[0.0f32, -0.0, 1.0, -2.5, 3.0] { three.push(Operand::Const(c)); }
+        for &lo in &three { for &ro in &three {
+            for which in 0..2 {
+                let mut ctx = Context::new();
+                let a = mk(&mut ctx, lo, None);
+                let b = mk(&mut ctx, ro, Some(a));
+                let n = if which == 0 { ctx.less_than(a, b).unwrap() } else { ctx.less_than_or_equal(a, b).unwrap() };
+                for &x in &pts { for &y in &pts {
+                    r.cases += 1;
+                    let (va, vb) = (val(lo, x, y, 0.0), val(ro, x, y, 0.0));
+                    if !(va.is_finite() && vb.is_finite()) { continue; }
+                    let want = if which == 0 { (va < vb) as u8 as f32 } else { (va <= vb) as u8 as f32 };
+                    let got = ctx.eval_xyz(n, x, y, 0.0).unwrap();
+                    if !approx(got, want) {
+                        let nm = if which == 0 { "less_than" } else { "less_than_or_equal" };
+                        r.fail(format!("[meaning:{nm}] {nm}:{lo:?}:{ro:?}:x={},y={}", fmt_f(x), fmt_f(y)),
+                               format!("[meaning:{nm}] Context::{nm}({lo:?}, {ro:?}) evaluates to {} but {} {} {} is {}", fmt_f(got), fmt_f(va), if which == 0 { "<" } else { "<=" }, fmt_f(vb), want),
+                               json!({"contract":"context_rewrites","ctor":nm,"x":x.to_bits(),"y":y.to_bits()}));
+                    }
+                } }
+            }
+            for &co in &three {
+                let mut ctx = Context::new();
+                let c = mk(&mut ctx, co, None);
+                let a = mk(&mut ctx, lo, None);
+                let b = mk(&mut ctx, ro, None);
+                let n = ctx.if_nonzero_else(c, a, b).unwrap();
+                for &x in &pts { for &y in &pts {
+                    r.cases += 1;
+                    let (vc, va, vb) = (val(co, x, y, 0.0), val(lo, x, y, 0.0), val(ro, x, y, 0.0));
+                    if !(vc.is_finite() && va.is_finite() && vb.is_finite()) { continue; }
+                    let want = if vc != 0.0 { va } else { vb };
+                    let got = ctx.eval_xyz(n, x, y, 0.0).unwrap();
+                    if !approx(got, want) {
+                        r.fail(format!("[meaning:if_nonzero_else] {co:?}:{lo:?}:{ro:?}:x={},y={}", fmt_f(x), fmt_f(y)),
+                               format!("[meaning:if_nonzero_else] Context::if_nonzero_else({co:?}, {lo:?}, {ro:?}) evaluates to {} but the selected value is {}", fmt_f(got), fmt_f(want)),
+                               json!({"contract":"context_rewrites","ctor":"if_nonzero_else","x":x.to_bits(),"y":y.to_bits()}));
+                    }
+                } }
+            }
+        } }
     }
     // unary constructors: exact
     type UnCtor = fn(&mut Context, Node) -> Node;
@@ -105,19 +200,22 @@ pub fn context_rewrites(thorough: bool) -> Report {
             let mut ctx = Context::new();
             let a = mk(&mut ctx, lo, None);
             let n = ctor(&mut ctx, a);
-            for &x in &pts {
+            let mut upts = pts.clone();
+            upts.extend(boundary_values().into_iter().filter(|v| v.is_finite()));
+            for &x in &upts {
                 r.cases += 1;
                 let va = val(lo, x, 0.5, 0.0);
-                let want = op.eval(va);
+                let want = un_ref(*op, va);
                 let got = ctx.eval_xyz(n, x, 0.5, 0.0).unwrap();
-                if !(got.to_bits() == want.to_bits() || (got.is_nan() && want.is_nan())) {
+                // up to the sign of zero: a folded constant may be represented by the arena's zero of the other sign
+                if !approx(got, want) {
                     r.fail(format!("{name}:{lo:?}:x={}", fmt_f(x)), format!("Context::{name}({lo:?}) evaluates to {} but {name}({}) = {}", fmt_f(got), fmt_f(va), fmt_f(want)),
                            json!({"contract":"context_rewrites","ctor":name,"lhs":format!("{lo:?}"),"x":x.to_bits()}));
                 }
             }
         }
     }
-    r.space = format!("11 binary constructors x {} lhs operand shapes (variable x, variable y, compound node atan2(x,y), {} constants incl. +-0, +-1, 2) x {} rhs shapes (the same plus `the same node as the lhs`) x {}^2 points; 17 unary constructors x the lhs shapes x {} points; oracle: BinaryOpcode::eval / UnaryOpcode::eval on the operand values, bit for bit or both zero, skipped when an operand or the unsimplified result is not finite (the property's hedge)",
+    r.space = format!("11 binary constructors x {} lhs operand shapes (variable x, variable y, compound node atan2(x,y), {} constants incl. +-0, +-1, 2) x {} rhs shapes (the same plus `the same node as the lhs`) x {}^2 points; 17 unary constructors x the lhs shapes x {} points; plus two-level chains op2(op1(x, c1), c2) (both operand orders) for op1, op2 in {{add, sub, mul, div, min, max}} and 10 constants incl. +-1e8, plus less_than / less_than_or_equal / if_nonzero_else on 8 operand shapes each; oracle: the f32 operation written in this file (not context/op.rs) on the operand values, bit for bit or both zero, skipped when an operand or the unsimplified result is not finite (the property's hedge)",
         operands.len(), consts.len(), rhs_ops.len(), pts.len(), pts.len());
     r.distinct = r.cases;
     r.exhaustive = true;
